@@ -81,7 +81,7 @@ def check(prop, w, tier, t0):
     trans += tr
     starts = [r_[0] for r_ in runs_of(events)]
     nruns = len(starts)
-    distinct = {(s["op"], s["prep"], s["fault"], s["k"]) for s in starts}
+    distinct = {(s["op"], s["prep"], s["fault"], s.get("late", False), s["k"]) for s in starts}
     nontrivial = {x for x in distinct if x[2] != "none"}
     for b in v["bad"]:
         if b[flag]:
@@ -91,8 +91,9 @@ def check(prop, w, tier, t0):
         while events[i]["ev"] != "OpStart":
             i -= 1
         s = events[i]
-        verdict.bad({"op": s["op"], "prep": s["prep"], "fault": s["fault"], "k": s["k"], "rand": rand_of(s["op"])}, None,
-                    "%s prep=%s fault=%s:%s -- %s" % (s["op"], s["prep"], s["fault"], s["k"], b["why"]))
+        mode = "drvlate" if s.get("late") else s["fault"]   # drvlate: the query's error shows when its rows are read
+        verdict.bad({"op": s["op"], "prep": s["prep"], "fault": mode, "k": s["k"], "rand": rand_of(s["op"])}, None,
+                    "%s prep=%s fault=%s:%s -- %s" % (s["op"], s["prep"], mode, s["k"], b["why"]))
 
     def reproduce(case):
         rows = run_ops(vh, w.sub("repro"), "r" + lib.case_hash(case), case["prep"], ops=case["op"], only="%s:%d" % (case["fault"], case["k"]), rand=case.get("rand"))
